@@ -764,6 +764,11 @@ outerNew:
 				if link == "" {
 					linkPs = ""
 				}
+				if i := strings.IndexByte(linkPs, ';'); i >= 0 {
+					// The parameter field of OSC 8 ends at the first
+					// ';': the rest would be read as part of the URL
+					linkPs = linkPs[:i]
+				}
 				_, _ = vx.tw.WriteString(tparm(osc8, linkPs, link))
 			}
 
